@@ -29,7 +29,9 @@ normalised in place (`relative_to_scheme_mismatch`); (iii) **the round trip itse
 (`roundtrip_on_class_partial`) for same scheme, equal authorities, absolute paths (the base's may
 also be empty), a target that is not the root, the "same document" shortcut not taken, and a
 remainder that does not begin with an empty segment unless a common directory precedes it — and
-for a target that is the root with the base below it (`roundtrip_root_partial`).  There
+for a target that is the root with the base below it (`roundtrip_root_partial`); the same without
+authority on either side, both paths absolute (`roundtrip_on_class_noauth_partial`, through
+`C06.resolve_relative_noauthority`).  There
 `a.relative_to(b)` is `../` for every remaining segment of the base's directory followed by the
 remainder of `a` (`relative_to_on_class`), and resolving it against `b` gives a URI/IRI equal to `a`
 (`Lemmas/RelativeRoundTrip.lean`, through `C06.resolve_relative_authority`); the class is disjoint
@@ -101,6 +103,72 @@ theorem roundtrip_on_class_partial (G : Grammar) (ok : Lemmas.Grammar.Ok G) (okp
     ∃ r t, Ref.relative_to a b = some r ∧ Ref.resolve r b = some t ∧ key t = key a :=
   Lemmas.relative_roundtrip G ok okp oka we a b aa ab ha hb hsch haa hab hauth hpa hpb hne hcls hnsp
 
+/-- **the round trip on the class, no authority on either side** (`file:/a/b/c` relative to
+`file:/a/d/e`): same scheme, both paths absolute, a target that is not the root, and neither
+normalised path beginning with an empty segment (`s:/.//a` — no text without authority can spell
+such a target path, the residue of F12) -/
+theorem roundtrip_on_class_noauth_partial (G : Grammar) (ok : Lemmas.Grammar.Ok G) (okp : Lemmas.Grammar.OkPath G)
+    (oka : Lemmas.Grammar.OkAuth G) (we : Lemmas.Grammar.OkWE G) (a b : Text)
+    (ha : RE.Matches G.full a) (hb : RE.Matches G.full b)
+    (hsch : (split a).scheme = (split b).scheme)
+    (haa : (split a).authority = none) (hab : (split b).authority = none)
+    (hpa : isAbs (split a).path = true) (hpb : isAbs (split b).path = true)
+    (hne : nsegs (split a).path ≠ [])
+    (hha : (nsegs (split a).path).head? ≠ some [])
+    (hhb : (nsegs (Path.parent_or_empty (split b).path)).head? ≠ some [])
+    (hcls : (!(Lemmas.remainder a b).2.2 && (Lemmas.remainder a b).1.head? == some []) = false)
+    (hnsp : (((split a).query.isSome || (split a).fragment.isSome) &&
+      ((split a).query.isSome || (split b).query.isNone) &&
+      some (Lemmas.renderRel (Lemmas.relSegs a b)) == Path.last (split b).path) = false) :
+    ∃ r t, Ref.relative_to a b = some r ∧ Ref.resolve r b = some t ∧ key t = key a :=
+  Lemmas.relative_roundtrip_noauth G ok okp oka we a b ha hb hsch haa hab hpa hpb hne hha hhb hcls hnsp
+
+/-- the hypotheses are satisfiable: `s:/a/b/c?q` relative to `s:/a/d/e` is `../b/c?q` -/
+example :
+    let a : Text := [0x73,0x3A,0x2F,0x61,0x2F,0x62,0x2F,0x63,0x3F,0x71]
+    let b : Text := [0x73,0x3A,0x2F,0x61,0x2F,0x64,0x2F,0x65]
+    (split a).scheme = (split b).scheme ∧ (split a).authority = none ∧ (split b).authority = none ∧
+    isAbs (split a).path = true ∧ isAbs (split b).path = true ∧
+    (nsegs (split a).path).head? = some [0x61] ∧
+    (nsegs (Path.parent_or_empty (split b).path)).head? = some [0x61] ∧
+    Lemmas.remainder a b = ([[0x62], [0x63]], [[0x64]], true) ∧
+    Ref.relative_to a b = some [0x2E,0x2E,0x2F,0x62,0x2F,0x63,0x3F,0x71] ∧
+    Ref.resolve [0x2E,0x2E,0x2F,0x62,0x2F,0x63,0x3F,0x71] b = some a := by decide
+
+/-- end to end, URI family, without authority -/
+theorem uri_roundtrip_on_class_noauth_partial (a b : Text) (ha8 : ∀ c ∈ a, c < 256) (hb8 : ∀ c ∈ b, c < 256)
+    (ha : accepts .uri a = true) (hb : accepts .uri b = true)
+    (hsch : (split a).scheme = (split b).scheme)
+    (haa : (split a).authority = none) (hab : (split b).authority = none)
+    (hpa : isAbs (split a).path = true) (hpb : isAbs (split b).path = true)
+    (hne : nsegs (split a).path ≠ [])
+    (hha : (nsegs (split a).path).head? ≠ some [])
+    (hhb : (nsegs (Path.parent_or_empty (split b).path)).head? ≠ some [])
+    (hcls : (!(Lemmas.remainder a b).2.2 && (Lemmas.remainder a b).1.head? == some []) = false)
+    (hnsp : (((split a).query.isSome || (split a).fragment.isSome) &&
+      ((split a).query.isSome || (split b).query.isNone) &&
+      some (Lemmas.renderRel (Lemmas.relSegs a b)) == Path.last (split b).path) = false) :
+    ∃ r t, Ref.relative_to a b = some r ∧ Ref.resolve r b = some t ∧ key t = key a :=
+  roundtrip_on_class_noauth_partial uriG Lemmas.uriG_ok Lemmas.uriG_okPath Lemmas.uriG_okAuth Lemmas.uriG_okWE a b
+    (Valid.uri_octets a ha8 ha) (Valid.uri_octets b hb8 hb) hsch haa hab hpa hpb hne hha hhb hcls hnsp
+
+/-- … IRI family (octets) -/
+theorem iri_roundtrip_on_class_noauth_partial (a b : Text) (ha8 : ∀ c ∈ a, c < 256) (hb8 : ∀ c ∈ b, c < 256)
+    (ha : accepts .iri a = true) (hb : accepts .iri b = true)
+    (hsch : (split a).scheme = (split b).scheme)
+    (haa : (split a).authority = none) (hab : (split b).authority = none)
+    (hpa : isAbs (split a).path = true) (hpb : isAbs (split b).path = true)
+    (hne : nsegs (split a).path ≠ [])
+    (hha : (nsegs (split a).path).head? ≠ some [])
+    (hhb : (nsegs (Path.parent_or_empty (split b).path)).head? ≠ some [])
+    (hcls : (!(Lemmas.remainder a b).2.2 && (Lemmas.remainder a b).1.head? == some []) = false)
+    (hnsp : (((split a).query.isSome || (split a).fragment.isSome) &&
+      ((split a).query.isSome || (split b).query.isNone) &&
+      some (Lemmas.renderRel (Lemmas.relSegs a b)) == Path.last (split b).path) = false) :
+    ∃ r t, Ref.relative_to a b = some r ∧ Ref.resolve r b = some t ∧ key t = key a :=
+  roundtrip_on_class_noauth_partial Lemmas.iriGB Lemmas.iriGB_ok Lemmas.iriGB_okPath Lemmas.iriGB_okAuth Lemmas.iriGB_okWE
+    a b (Valid.iri_octets a ha8 ha) (Valid.iri_octets b hb8 hb) hsch haa hab hpa hpb hne hha hhb hcls hnsp
+
 /-- **the round trip when the target is the root** and the base lies below it (`https://crates.io/`
 relative to `https://crates.io/crates/iref` is `..`): the reference is `..` repeated -/
 theorem roundtrip_root_partial (G : Grammar) (ok : Lemmas.Grammar.Ok G) (okp : Lemmas.Grammar.OkPath G)
@@ -116,6 +184,27 @@ theorem roundtrip_root_partial (G : Grammar) (ok : Lemmas.Grammar.Ok G) (okp : L
       some (Lemmas.renderRel (Lemmas.relSegs a b)) == Path.last (split b).path) = false) :
     ∃ r t, Ref.relative_to a b = some r ∧ Ref.resolve r b = some t ∧ key t = key a :=
   Lemmas.relative_roundtrip_root G ok okp oka we a b aa ab ha hb hsch haa hab hauth hpa hpb hroot hbelow hnsp
+
+/-- … and without authority on either side (`s:/` relative to `s:/a/b` is `..`) -/
+theorem roundtrip_root_noauth_partial (G : Grammar) (ok : Lemmas.Grammar.Ok G) (okp : Lemmas.Grammar.OkPath G)
+    (oka : Lemmas.Grammar.OkAuth G) (we : Lemmas.Grammar.OkWE G) (a b : Text)
+    (ha : RE.Matches G.full a) (hb : RE.Matches G.full b)
+    (hsch : (split a).scheme = (split b).scheme)
+    (haa : (split a).authority = none) (hab : (split b).authority = none)
+    (hpa : isAbs (split a).path = true) (hpb : isAbs (split b).path = true)
+    (hroot : nsegs (split a).path = [])
+    (hbelow : nsegs (Path.parent_or_empty (split b).path) ≠ [])
+    (hnsp : (((split a).query.isSome || (split a).fragment.isSome) &&
+      ((split a).query.isSome || (split b).query.isNone) &&
+      some (Lemmas.renderRel (Lemmas.relSegs a b)) == Path.last (split b).path) = false) :
+    ∃ r t, Ref.relative_to a b = some r ∧ Ref.resolve r b = some t ∧ key t = key a :=
+  Lemmas.relative_roundtrip_root_noauth G ok okp oka we a b ha hb hsch haa hab hpa hpb hroot hbelow hnsp
+
+/-- non-vacuity: `s:/` relative to `s:/a/b` is `..`, and resolves back to `s:/` -/
+example : Ref.relative_to [0x73,0x3A,0x2F] [0x73,0x3A,0x2F,0x61,0x2F,0x62] = some [0x2E,0x2E] ∧
+    Ref.resolve [0x2E,0x2E] [0x73,0x3A,0x2F,0x61,0x2F,0x62] = some [0x73,0x3A,0x2F] ∧
+    nsegs (split [0x73,0x3A,0x2F]).path = [] ∧
+    nsegs (Path.parent_or_empty (split [0x73,0x3A,0x2F,0x61,0x2F,0x62]).path) ≠ [] := by decide
 
 /-- the documented example: `s://h/` relative to `s://h/c/i` is `..` -/
 example : Ref.relative_to [0x73,0x3A,0x2F,0x2F,0x68,0x2F] [0x73,0x3A,0x2F,0x2F,0x68,0x2F,0x63,0x2F,0x69]
